@@ -121,7 +121,7 @@ theorem pairsOuter_allT (T : Testcase → Prop) (cfg : Cfg) (clk : Clock) (stopA
   pairsOuter_induct cfg clk stopAt pass final (fun _ it => AllT T it) (AllT T)
     (fun _ it h => (allT_flag T it h true).1)
     (fun cs it h _ => hpass cs it h)
-    (fun cs it h => (allT_flag T _ (hpass cs it h) true).2.2)
+    (fun cs it h _ => (allT_flag T _ (hpass cs it h) true).2.2)
     (fun cs it h _ _ _ _ => hpass cs it h)
     (fun cs it h _ _ => hpass cs it h)
     (fun cs it h _ _ => hpass cs it h)
